@@ -1,28 +1,11 @@
 //! vcheck — property-based checks for bgpfu/bgpfu-rs (see /verif/DESIGN.md).
 #![allow(clippy::all)]
 
-mod binrun;
-mod core;
-mod fake_junos;
-mod fullrun;
-mod irr;
-mod junos_model;
-mod mem;
-mod net;
-mod ops;
-mod props;
-mod replygen;
-mod running;
-mod sched;
-mod script;
-mod sess;
-mod strings;
-mod xmlgen;
-mod xmlstrict;
 
 use std::path::PathBuf;
 
-use crate::core::{replay_property, run_property, Tier};
+use vcheck::core::{self, replay_property, run_property, Tier};
+use vcheck::props;
 
 fn usage() -> ! {
     eprintln!("usage: vcheck <C01..C20|list> [--tier quick|thorough] [--seed N] [--part NAME] [--replay FILE]");
@@ -98,6 +81,16 @@ fn main() {
             .with_env_filter(tracing_subscriber::EnvFilter::new(filter))
             .with_writer(std::io::stderr)
             .try_init();
+    }
+    if id == "gen-fuzz-seeds" {
+        match vcheck::props::c14::write_fuzz_seeds(240) {
+            Ok(n) => println!("wrote {n} seeds"),
+            Err(e) => {
+                eprintln!("{e}");
+                std::process::exit(2);
+            }
+        }
+        return;
     }
     if id == "list" {
         for p in props::all() {
